@@ -9,6 +9,7 @@ CONSTANTS
   SplitWrite = FALSE
   NoMaxCheck = FALSE
   NoMinCheck = FALSE
+  ResumeFresh = FALSE
   NoReadFull = FALSE
   WithHist = FALSE
   Export = FALSE
